@@ -29,7 +29,7 @@ let () =
   (try
      while true do
        let line = input_line stdin in
-       Buffer.add_string out (string_of_str (M.run engine (str_of_string line)));
+       Buffer.add_string out (string_of_str (M.run_engine engine (str_of_string line)));
        Buffer.add_char out '\n';
        if Buffer.length out > (1 lsl 16) then (print_string (Buffer.contents out); Buffer.clear out)
      done
